@@ -82,9 +82,19 @@ func transmit(s *xmpp.Session, op int, id string, early xmlstream.TokenWriteFlus
 
 func body(c *nd.Ctx) nd.Result {
 	peer := peerModes[c.Choose(len(peerModes), "peer")]
-	closers := 1 + c.Choose(2, "closers")
+	closers := []int{1, 2, 0}[c.Choose(3, "closers")]
 	op := c.Choose(len(transmitOps), "transmit-op")
 	handlerMode := c.Choose(3, "handler") // 0 nothing, 1 replies, 2 returns error
+	if closers == 0 {
+		// the application never calls Close: Serve's own shutdown is the only
+		// closer, so only histories in which Serve ends by itself are meaningful
+		switch {
+		case peer == "peer-closes-after-us":
+			return nd.Result{Skip: true}
+		case peer == "peer-closes-after-stanza-for-failing-handler" && handlerMode != 2:
+			return nd.Result{Skip: true}
+		}
+	}
 	ns := stanza.NSClient
 	type txOut struct {
 		done         bool
@@ -158,6 +168,10 @@ func body(c *nd.Ctx) nd.Result {
 		tx[0].err = transmit(env.S, op, "tx1", early)
 		tx[0].done = true
 		vsess.Wait("closers-done", func() bool { return closeReturned == closers })
+		if closers == 0 {
+			// nobody called Close: the second transmit follows Serve's return
+			vsess.Wait("serve-done", func() bool { return env.ServeDone })
+		}
 		tx[1].afterClose = true
 		op2 := op
 		if transmitOps[op] == "TokenWriter-opened-early" {
@@ -179,7 +193,20 @@ func body(c *nd.Ctx) nd.Result {
 	for _, t := range out.Trace {
 		c.Note("  %s", t)
 	}
-	res := nd.Result{Outcome: out.Kind, NonTrivial: desc + fmt.Sprint(c.Vector())}
+	ec := func(err error) string {
+		switch {
+		case err == nil:
+			return "nil"
+		case errors.Is(err, xmpp.ErrOutputStreamClosed):
+			return "output-closed"
+		}
+		return "error"
+	}
+	serveErr := error(nil)
+	if env != nil {
+		serveErr = env.ServeErr
+	}
+	res := nd.Result{Outcome: fmt.Sprintf("%s serve=%s tx1=%s(after-close=%v) tx2=%s", out.Kind, ec(serveErr), ec(tx[0].err), tx[0].afterClose, ec(tx[1].err)), NonTrivial: desc + fmt.Sprint(c.Vector())}
 	wire := ""
 	if env != nil {
 		wire = string(env.Lib.Written())
